@@ -7,6 +7,7 @@ guards, width map, read/write agreement, modulo, single writer, relocate flag.
 """
 import ast
 import re
+from sa.canon import U
 from sa.world import get_world
 from sa import elfconf, layout, expr, paths, streams, dispatch, literals, registry, hrules
 from sa.absint import FuncV, Node, Unknown, ClassV
@@ -128,11 +129,11 @@ def check_tables(ctx, w):
         ctx.ob('I-STRIDE', f.construct, k, tr.get(k) == v, got=tr.get(k), expected=v, msg='relocation table constructor wiring')
     ifs = [n for n in f.node.body if isinstance(n, ast.If)]
     ok = len(ifs) == 1 and expr.cond_str(ifs[0].test, env) == 'T(is_rela)' and \
-        'Elf_Rela' in ast.unparse(ifs[0].body[0]) and 'Elf_Rel' in ast.unparse(ifs[0].orelse[0]) and 'Elf_Rela' not in ast.unparse(ifs[0].orelse[0])
+        'Elf_Rela' in U(ifs[0].body[0]) and 'Elf_Rel' in U(ifs[0].orelse[0]) and 'Elf_Rela' not in U(ifs[0].orelse[0])
     ctx.ob('I-STRIDE', f.construct, 'struct by flavour', ok, msg='RELA tables must use Elf_Rela and REL tables Elf_Rel')
     f = w.model.func(REL, 'RelocationSection.__init__')
     env = expr.FEnv(f.node, params=('header', 'name', 'elffile'))
-    calls = [c for c in ast.walk(f.node) if isinstance(c, ast.Call) and ast.unparse(c.func) == 'RelocationTable.__init__']
+    calls = [c for c in ast.walk(f.node) if isinstance(c, ast.Call) and U(c.func) == 'RelocationTable.__init__']
     got = [expr.nfs(a, env) for a in calls[0].args] if calls else None
     want = ['self', 'elffile', 'sh_offset', 'sh_size', expr.spec_cond("sh_type == 'SHT_RELA'")]
     ctx.ob('I-STRIDE', f.construct, 'section wiring', got == want, got=got, expected=want,
@@ -152,7 +153,7 @@ def check_tables(ctx, w):
     ctx.ob('I-STRIDE', f.construct, "RELA iff 'r_addend' in entry", got == ["[in:'r_addend' in entry]"], got=got)
     f = w.model.func(REL, 'RelrRelocationSection.__init__')
     env = expr.FEnv(f.node, params=('header', 'name', 'elffile'))
-    calls = [c for c in ast.walk(f.node) if isinstance(c, ast.Call) and ast.unparse(c.func) == 'RelrRelocationTable.__init__']
+    calls = [c for c in ast.walk(f.node) if isinstance(c, ast.Call) and U(c.func) == 'RelrRelocationTable.__init__']
     got = [expr.nfs(a, env) for a in calls[0].args] if calls else None
     ctx.ob('I-STRIDE', f.construct, 'RELR section wiring', got == ['self', 'elffile', 'sh_offset', 'sh_size', 'sh_entsize'], got=got)
 
@@ -167,7 +168,7 @@ def check_relr(ctx, w):
         'relr': [('=', '_offset'), ('+=', E)],
         'base': [('=', 'None'), ('=', 'entry_offset'), ('+=', E),
                  ('+=', expr.spec_nf("(8 * _entrysize - 1) * sizeof(Elf_addr(''))"))],
-        'entry_offset': [('=', 'r_offset'), ('=', expr.spec_nf('entry_offset >> 1'))],
+        'entry_offset': [('=', 'r_offset'), ('>>=', '1')],      # x = x >> 1 is normalised to x >>= 1 (sa/canon.py N2)
         'calc_offset': [('=', expr.spec_nf('base + i * _entrysize'))],
         'i': [('=', '0'), ('+=', '1')],
     }
@@ -178,15 +179,37 @@ def check_relr(ctx, w):
     ctx.ob('E-i', f.construct, 'outer guard relr < limit', bool(whiles) and expr.cond_str(whiles[0].test, env) == expr.spec_cond('relr < _offset + _size'),
            got=expr.cond_str(whiles[0].test, env) if whiles else None)
     # the cursor advance is the last statement of the outer loop body (runs on every iteration)
-    ok = bool(whiles) and ast.unparse(whiles[0].body[-1]) == 'relr += self._entrysize'
+    ok = bool(whiles) and U(whiles[0].body[-1]) == 'relr += self._entrysize'
     ctx.ob('E-i', f.construct, 'cursor advances on every iteration', ok, msg='relr += entrysize is not the unconditional last step of the loop')
     tests = [expr.cond_str(n.test, env) for n in ast.walk(f.node) if isinstance(n, ast.If)]
-    ctx.ob('E-i', f.construct, 'anchor test (even word)', expr.spec_cond('(entry_offset & 1) == 0') in tests, got=tests)
+    # which arm does what: the first test of the low bit on a path through one outer iteration is the anchor test; an even
+    # word takes the base (and is yielded as is), an odd word is a bitmap and needs a base
+    low0 = expr.CP(expr.spec_cond('(entry_offset & 1) == 0'), True)
+    n_even = n_odd = 0
+    arms_ok = bool(whiles)
+    why = None
+    for p in (paths.enum_paths(whiles[0].body) if whiles else []):
+        first = [c for c in (expr.CP(expr.cond_str(t, env), pol) for t, pol in p.conds()) if c[0] == low0[0]][:1]
+        stm = [U(x) for x in p.stmts()]
+        has_base = any(x == 'base = entry_offset' for x in stm)
+        has_assert = any(x.startswith('elf_assert(base is not None') for x in stm)
+        if not first:
+            arms_ok, why = False, 'a path through the loop body does not test the low bit'
+        elif first[0] == low0:
+            n_even += 1
+            if not has_base or has_assert:
+                arms_ok, why = False, ('even word path', stm[:6])
+        else:
+            n_odd += 1
+            if has_base or not has_assert:
+                arms_ok, why = False, ('odd word path', stm[:6])
+    ctx.ob('E-i', f.construct, 'anchor test (even word): even -> base taken; odd -> bitmap over an existing base', arms_ok and n_even >= 1 and n_odd >= 1,
+           got=why or (n_even, n_odd), msg='an even RELR word is an address (anchor), an odd word a bitmap: the arms are exchanged or incomplete')
     ctx.ob('E-i', f.construct, 'bit test', expr.spec_cond('(entry_offset & 1) != 0') in tests, got=tests)
     ctx.ob('E-i', f.construct, 'bitmap exhausted test', expr.spec_cond('entry_offset == 0') in tests, got=tests)
     # order inside the bitmap loop: shift, exhausted?, test bit, i += 1
     if len(whiles) >= 2:
-        body = [ast.unparse(s).split('\n')[0] for s in whiles[1].body]
+        body = [U(s).split('\n')[0] for s in whiles[1].body]
         ok = len(body) == 4 and body[0].replace(' ', '') in ('entry_offset=entry_offset>>1', 'entry_offset>>=1') and body[1].startswith('if entry_offset == 0') \
             and body[2].startswith('if entry_offset & 1') and body[3] == 'i += 1'
         ctx.ob('E-i', f.construct, 'bitmap loop order: shift, stop, test, count', ok, got=body,
@@ -230,7 +253,7 @@ def check_dyn_tables(ctx, w):
         ctx.ob('G-SIG', f.construct, '%s table: guard, class, pointer tag' % key, ok, got=g, expected=(guard, cls, args[:2]),
                msg='dynamic relocation table is not located through its own pointer tag')
     # size/entsize tags: compare on the un-normalised source (which tag feeds which argument)
-    src = ast.unparse(f.node)
+    src = U(f.node)
     for key, (cls, ptr, sz, ent, flav) in sorted(R.DYN_TABLES.items()):
         pat_sz = "next(self.iter_tags('%s'))['d_val']" % sz
         ctx.ob('G-SIG', f.construct, '%s size from %s' % (key, sz), _arg_uses(f.node, key, 2, pat_sz), msg='table size taken from the wrong tag',
@@ -255,7 +278,7 @@ def _table_call(fnode, key):
 
 def _arg_uses(fnode, key, idx, text):
     c = _table_call(fnode, key)
-    return c is not None and len(c.args) > idx and ast.unparse(c.args[idx]).replace('"', "'") == text
+    return c is not None and len(c.args) > idx and U(c.args[idx]).replace('"', "'") == text
 
 
 def _arg_const(fnode, key, idx):
@@ -326,9 +349,9 @@ def check_apply(ctx, w):
     ok_bound = ok_none = True
     n_ok = 0
     for p in allp:
-        conds = dict((expr.cond_str(t, env), pol) for t, pol in p.conds())
+        conds = expr.Facts(expr.CP(expr.cond_str(t, env), pol) for t, pol in p.conds())
         ops = streams.path_ops(p, env)
-        src = ' '.join(ast.unparse(s) for s in p.stmts())
+        src = ' '.join(U(s) for s in p.stmts())
         if 'symtab.get_symbol(' in src and conds.get(bound) is not False:
             ok_bound = False
         if any(o.kind in ('parse', 'seek') for o in ops) or 'build_stream' in src:
@@ -342,17 +365,17 @@ def check_apply(ctx, w):
            msg='a path reads/writes the field although no recipe was found', expected=none)
     silent = []
     for p in allp:
-        conds = dict((expr.cond_str(t, env), pol) for t, pol in p.conds())
+        conds = expr.Facts(expr.CP(expr.cond_str(t, env), pol) for t, pol in p.conds())
         if (conds.get(bound) is True or conds.get(none) is True) and p.end[0] != 'raise':
             silent.append(p.end[0])
     ctx.ob('R-DOM', f.construct, 'bad index / unsupported type never silently skipped', not silent, got=silent,
            msg='a path with an out-of-range symbol index or no recipe ends without raising')
     for p in allp:
         if p.end[0] == 'raise' and p.end[1] is not None:
-            conds = dict((expr.cond_str(t, env), pol) for t, pol in p.conds())
+            conds = expr.Facts(expr.CP(expr.cond_str(t, env), pol) for t, pol in p.conds())
             if conds.get(bound) is True or conds.get(none) is True:
                 ctx.ob('R-DOM', f.construct, 'raises ELFRelocationError (%s)' % ('bound' if conds.get(bound) else 'type'),
-                       'ELFRelocationError' in ast.unparse(p.end[1]), got=ast.unparse(p.end[1])[:60])
+                       'ELFRelocationError' in U(p.end[1]), got=U(p.end[1])[:60])
     # (c) flavour guards per machine
     chains = dispatch.find_chain(f.node, dispatch.subject_src('self.elffile.get_machine_arch()'), min_branches=3)
     if not chains:
@@ -361,7 +384,7 @@ def check_apply(ctx, w):
     for b in chains[0]:
         if b.is_else or b.extra:
             continue
-        tables = sorted(set(re.findall(r'self\.(_RELOCATION_RECIPES_\w+)\.get\(reloc_type', ' '.join(ast.unparse(s) for s in b.body))))
+        tables = sorted(set(re.findall(r'self\.(_RELOCATION_RECIPES_\w+)\.get\(reloc_type', ' '.join(U(s) for s in b.body))))
         flavour = 'ANY'
         for st in b.body:
             if isinstance(st, ast.If):
@@ -373,8 +396,8 @@ def check_apply(ctx, w):
                     flavour = 'RELA'
                 elif c == 'T(is_RELA(reloc))' and not raises:
                     flavour = 'SPLIT'
-                    body_t = re.findall(r'self\.(_RELOCATION_RECIPES_\w+)\.get', ' '.join(ast.unparse(s) for s in st.body))
-                    else_t = re.findall(r'self\.(_RELOCATION_RECIPES_\w+)\.get', ' '.join(ast.unparse(s) for s in st.orelse))
+                    body_t = re.findall(r'self\.(_RELOCATION_RECIPES_\w+)\.get', ' '.join(U(s) for s in st.body))
+                    else_t = re.findall(r'self\.(_RELOCATION_RECIPES_\w+)\.get', ' '.join(U(s) for s in st.orelse))
                     tables = (body_t[0] if body_t else None, else_t[0] if else_t else None)
         for k in b.keys:
             got[k] = (tables[0] if isinstance(tables, list) and len(tables) == 1 else tuple(tables) if isinstance(tables, tuple) else tuple(tables), flavour)
@@ -395,10 +418,10 @@ def check_apply(ctx, w):
                 else_raises = any(isinstance(s, ast.Raise) for s in b.body)
                 continue
             for st in b.body:
-                if isinstance(st, ast.Assign) and ast.unparse(st.targets[0]) == 'value_struct':
-                    m = re.match(r"^self\.elffile\.structs\.(\w+)\(''\)$", ast.unparse(st.value))
+                if isinstance(st, ast.Assign) and U(st.targets[0]) == 'value_struct':
+                    m = re.match(r"^self\.elffile\.structs\.(\w+)\(''\)$", U(st.value))
                     for k in b.keys:
-                        wm[k] = m.group(1) if m else ast.unparse(st.value)
+                        wm[k] = m.group(1) if m else U(st.value)
     ctx.ob('W-APPLY', f.construct, 'width map', wm == R.WIDTHS, got=wm, expected=R.WIDTHS, msg='bytesize is mapped to the wrong field struct')
     ctx.ob('W-APPLY', f.construct, 'other widths rejected', else_raises)
     # (e) read/write agreement, modulo; (g) calc arguments
@@ -410,7 +433,7 @@ def check_apply(ctx, w):
     ctx.ob('W-APPLY', f.construct, 'calc arguments', bool(rv) and rv[0] == ('=', want_calc), got=rv[:1] if rv else None, expected=want_calc,
            msg='calc function is not applied to (in-place value, symbol value, r_offset, addend-if-any)')
     want_mod = expr.spec_nf('relocated_value % 2 ** (bytesize * 8)')
-    ctx.ob('W-APPLY', f.construct, 'result reduced modulo 2^(8*bytesize)', bool(rv) and rv[-1] == ('=', want_mod) and len(rv) == 2,
+    ctx.ob('W-APPLY', f.construct, 'result reduced modulo 2^(8*bytesize)', bool(rv) and rv[-1] in (('=', want_mod), ('%=', expr.spec_nf('2 ** (bytesize * 8)'))) and len(rv) == 2,
            got=rv[1:] if rv else None, expected=want_mod)
     ctx.ob('W-APPLY', f.construct, 'symbol value', tr.get('sym_value') == [('=', "index(get_symbol(symtab,r_info_sym),'st_value')")] or
            tr.get('sym_value') == [('=', 'st_value')], got=tr.get('sym_value'))
@@ -423,7 +446,7 @@ def check_apply(ctx, w):
         ops = [o.t() for o in streams.path_ops(p, env)]
         if ops != [('parse', 'stream', 'value_struct', 'r_offset'), ('seek', 'stream', 'r_offset', 'SEEK_SET')]:
             tails_ok = False
-        last = ast.unparse(p.stmts()[-1]) if p.stmts() else ''
+        last = U(p.stmts()[-1]) if p.stmts() else ''
         if last != 'value_struct.build_stream(relocated_value, stream)':
             tails_ok = False
     ctx.ob('W-APPLY', f.construct, 'write back at r_offset with the same struct (%d paths)' % n_ok, tails_ok and n_ok > 0,
@@ -434,7 +457,7 @@ def check_apply(ctx, w):
         if mod == 'elftools/' + REL:
             for n in ast.walk(fi.node):
                 if isinstance(n, ast.Call) and isinstance(n.func, ast.Attribute) and n.func.attr in ('write', 'build_stream', 'truncate', 'writelines'):
-                    writers.append((q, ast.unparse(n)[:50]))
+                    writers.append((q, U(n)[:50]))
     ctx.ob('W-APPLY', REL, 'single writer', writers == [('RelocationHandler._do_apply_relocation', 'value_struct.build_stream(relocated_value, stream)')],
            got=writers, msg='another statement writes to a stream in the relocation module: bytes other than the relocated field may change')
     # apply loop: symtab from sh_link, every relocation applied
@@ -452,7 +475,7 @@ def check_apply(ctx, w):
     for n in ast.walk(h.node):
         if isinstance(n, ast.Call) and dispatch.callee_name(n) == 'RelocationHandler':
             for p in paths.paths_reaching(h.node, n):
-                cs = dict((expr.cond_str(t, henv), pol) for t, pol in p.conds())
+                cs = expr.Facts(expr.CP(expr.cond_str(t, henv), pol) for t, pol in p.conds())
                 if cs.get('T(relocate_dwarf_sections)') is not True:
                     ok = False
     ctx.ob('W-APPLY', h.construct, 'relocation only when relocate_dwarf_sections', ok,
